@@ -11,6 +11,7 @@ use crate::seq::{run_case_full, Act, CaseResult, ALL_OPS};
 use crate::world::{abstract_hash, Dir, Inner, Role};
 use crate::Opts;
 use std::collections::BTreeMap;
+use std::sync::{Arc, Mutex};
 
 pub const INDEP_OPS: &[&str] =
     &["map", "filter", "scan", "take", "skip", "merge", "concat", "combine", "flatten", "for_each", "tree", "from_iter"];
@@ -274,5 +275,160 @@ pub fn replay(_o: &Opts, parts: &[&str]) -> i32 {
     } else {
         println!("no difference between the interleaved and the solo runs");
         0
+    }
+}
+
+// ---------------------------------------------------------------------------------------------
+// E2t: one pull pipeline value subscribed from several threads at once (round 8, `r8C13-a`)
+// ---------------------------------------------------------------------------------------------
+//
+// Two subscriptions of one output value may be driven by two threads - `Source` is `Send + Sync`
+// and nothing of what a subscription owns is shared with another one - and each of them must still
+// see exactly the list the pipeline computes. Every subscription is single-threaded here (one
+// thread per subscription), so nothing is asked of the operators beyond C13 itself: whatever state
+// differs between the subscriptions is per subscription. The oracle is the list function, computed
+// with std iterators; a run in which the subscriptions did not overlap in time is not counted.
+
+#[derive(Clone, Debug)]
+enum TStage {
+    Map(i64),
+    Filter(i64),
+    Scan(i64),
+    Skip(usize),
+    Take(usize),
+}
+
+fn t_expected(len: usize, stages: &[TStage], twice: bool) -> Vec<i64> {
+    let mut v: Vec<i64> = (0..len as i64).collect();
+    for s in stages {
+        v = match s {
+            TStage::Map(k) => v.into_iter().map(|x| x.wrapping_mul(3).wrapping_add(*k)).collect(),
+            TStage::Filter(m) => v.into_iter().filter(|x| x.rem_euclid(*m) != 0).collect(),
+            TStage::Scan(seed) => v
+                .into_iter()
+                .scan(*seed, |acc, x| {
+                    *acc = acc.wrapping_add(x);
+                    Some(*acc)
+                })
+                .collect(),
+            TStage::Skip(n) => v.into_iter().skip(*n).collect(),
+            TStage::Take(n) => v.into_iter().take(*n).collect(),
+        };
+    }
+    if twice {
+        let w = v.clone();
+        v.extend(w);
+    }
+    v
+}
+
+fn t_build(len: usize, stages: &[TStage], twice: bool) -> Arc<callbag::Source<i64>> {
+    let mut s: Arc<callbag::Source<i64>> = Arc::new(callbag::from_iter(0..len as i64));
+    for st in stages {
+        s = match st.clone() {
+            TStage::Map(k) => Arc::new(callbag::map(move |x: i64| x.wrapping_mul(3).wrapping_add(k))(s)),
+            TStage::Filter(m) => Arc::new(callbag::filter(move |x: &i64| x.rem_euclid(m) != 0)(s)),
+            TStage::Scan(seed) => Arc::new(callbag::scan(move |acc: i64, x: i64| acc.wrapping_add(x), seed)(s)),
+            TStage::Skip(n) => Arc::new(callbag::skip(n)(s)),
+            TStage::Take(n) => Arc::new(callbag::take(n)(s)),
+        };
+    }
+    if twice {
+        // the same value as both members: the second subscription of it starts when the first is over
+        let v: Vec<Arc<callbag::Source<i64>>> = vec![Arc::clone(&s), s];
+        Arc::new(callbag::concat(v.into_boxed_slice()))
+    } else {
+        s
+    }
+}
+
+pub fn run_threads(o: &Opts, rep: &mut Report) {
+    use std::sync::atomic::{AtomicUsize, Ordering};
+    let rounds: u64 = if o.tier == "thorough" { 600 } else { 60 };
+    let nthr = 4usize;
+    for i in 0..rounds {
+        let mut rng = crate::rng::Rng::from_parts(&[o.seed, 0xC13_7, i]);
+        let len = 8_000 + rng.below(24_000);
+        let mut stages = vec![];
+        for _ in 0..rng.below(4) {
+            stages.push(match rng.below(5) {
+                0 => TStage::Map(rng.below(7) as i64),
+                1 => TStage::Filter(2 + rng.below(3) as i64),
+                2 => TStage::Scan([0i64, 5, 100][rng.below(3)]),
+                3 => TStage::Skip(rng.below(50)),
+                _ => TStage::Take(len / 2 + rng.below(len)),
+            });
+        }
+        let twice = rng.chance(1, 3);
+        let want = t_expected(len, &stages, twice);
+        let src = t_build(len, &stages, twice);
+        let id = format!("E2t:C13:{}:{}", o.seed, i);
+        let started = Arc::new(AtomicUsize::new(0));
+        let finished = Arc::new(AtomicUsize::new(0));
+        let overlapped = Arc::new(AtomicUsize::new(0));
+        let barrier = Arc::new(std::sync::Barrier::new(nthr));
+        let mut results: Vec<Result<Vec<i64>, String>> = vec![];
+        crate::seq::QUIET_PANICS.with(|q| q.set(true));
+        std::thread::scope(|sc| {
+            let mut hs = vec![];
+            for _ in 0..nthr {
+                let src = Arc::clone(&src);
+                let barrier = Arc::clone(&barrier);
+                let (started, finished, overlapped) = (Arc::clone(&started), Arc::clone(&finished), Arc::clone(&overlapped));
+                hs.push(sc.spawn(move || {
+                    crate::seq::QUIET_PANICS.with(|q| q.set(true));
+                    barrier.wait();
+                    started.fetch_add(1, Ordering::SeqCst);
+                    let seen = Arc::new(Mutex::new(Vec::<i64>::new()));
+                    let r = std::panic::catch_unwind(std::panic::AssertUnwindSafe(|| {
+                        let seen = Arc::clone(&seen);
+                        callbag::pipe!(src, callbag::for_each(move |x: i64| seen.lock().unwrap().push(x)));
+                    }));
+                    // another subscription was running while this one ran to its end
+                    if started.load(Ordering::SeqCst) - finished.load(Ordering::SeqCst) >= 2 {
+                        overlapped.fetch_add(1, Ordering::SeqCst);
+                    }
+                    finished.fetch_add(1, Ordering::SeqCst);
+                    let v = seen.lock().unwrap().clone();
+                    match r {
+                        Ok(()) => Ok(v),
+                        Err(p) => Err(p.downcast_ref::<&str>().map(|s| s.to_string()).or_else(|| p.downcast_ref::<String>().cloned()).unwrap_or_else(|| "panic".into())),
+                    }
+                }));
+            }
+            for h in hs {
+                results.push(h.join().unwrap_or_else(|_| Err("subscriber thread died".into())));
+            }
+        });
+        crate::seq::QUIET_PANICS.with(|q| q.set(false));
+        rep.evaluations += 1;
+        rep.events += (want.len() * nthr) as u64;
+        rep.bump("c13.threads.rounds", 1);
+        rep.bump("c13.threads.items-compared", (want.len() * nthr) as u64);
+        if overlapped.load(Ordering::SeqCst) >= 2 {
+            rep.bump("c13.threads.rounds-with-overlapping-subscriptions", 1);
+        }
+        for (t, r) in results.iter().enumerate() {
+            let bad = match r {
+                Ok(v) if *v == want => None,
+                Ok(v) => {
+                    let k = v.iter().zip(want.iter()).position(|(a, b)| a != b).unwrap_or(v.len().min(want.len()));
+                    Some(format!(
+                        "subscriber thread {} of {} received {} items, the list function has {}; first difference at index {}: got {:?}, want {:?}",
+                        t, nthr, v.len(), want.len(), k, v.get(k), want.get(k)
+                    ))
+                },
+                Err(p) => Some(format!("subscriber thread {} of {} panicked inside the crate: {}", t, nthr, p)),
+            };
+            if let Some(detail) = bad {
+                let replay = J::obj()
+                    .set("case_id", J::s(&id))
+                    .set("engine", J::s("E2t: one pipeline value, four subscribing threads (schedule-dependent: re-run the check)"))
+                    .set("pipeline", J::s(&format!("from_iter(0..{}) |> {:?}{}", len, stages, if twice { " |> concat!(p.clone(), p)" } else { "" })))
+                    .set("detail", J::s(&detail));
+                rep.add_violation("C13", "pipeline/concurrent-subscriptions-interfere", &detail, &id, replay);
+                break;
+            }
+        }
     }
 }
